@@ -1,0 +1,50 @@
+//go:build verif
+
+package dastard
+
+// Thin exported access for the out-of-tree verification harness (/verif/harness).
+// Compiled only with `-tags verif`; adds no behaviour to the normal build.
+
+import "time"
+
+// VerifRecord mirrors DataRecord with exported fields.
+type VerifRecord struct {
+	Data           []RawType
+	TrigFrame      int64
+	TrigTimeNs     int64
+	Signed         bool
+	ChannelIndex   int
+	Presamples     int
+	VoltsPerArb    float32
+	SampPeriod     float32
+	PretrigMean    float64
+	PretrigDelta   float64
+	PulseAverage   float64
+	PulseRMS       float64
+	PeakValue      float64
+	ModelCoefs     []float64
+	ResidualStdDev float64
+}
+
+func (v VerifRecord) record() *DataRecord {
+	return &DataRecord{data: v.Data, trigFrame: FrameIndex(v.TrigFrame), trigTime: time.Unix(0, v.TrigTimeNs),
+		signed: v.Signed, channelIndex: v.ChannelIndex, presamples: v.Presamples,
+		voltsPerArb: v.VoltsPerArb, sampPeriod: v.SampPeriod,
+		pretrigMean: v.PretrigMean, pretrigDelta: v.PretrigDelta, pulseAverage: v.PulseAverage,
+		pulseRMS: v.PulseRMS, peakValue: v.PeakValue, modelCoefs: v.ModelCoefs, residualStdDev: v.ResidualStdDev}
+}
+
+// VerifFromRecord copies a DataRecord into its exported mirror.
+func VerifFromRecord(r *DataRecord) VerifRecord {
+	return VerifRecord{Data: r.data, TrigFrame: int64(r.trigFrame), TrigTimeNs: r.trigTime.UnixNano(),
+		Signed: r.signed, ChannelIndex: r.channelIndex, Presamples: r.presamples,
+		VoltsPerArb: r.voltsPerArb, SampPeriod: r.sampPeriod,
+		PretrigMean: r.pretrigMean, PretrigDelta: r.pretrigDelta, PulseAverage: r.pulseAverage,
+		PulseRMS: r.pulseRMS, PeakValue: r.peakValue, ModelCoefs: r.modelCoefs, ResidualStdDev: r.residualStdDev}
+}
+
+// VerifMessageRecords is messageRecords on an exported record.
+func VerifMessageRecords(v VerifRecord) [][]byte { return messageRecords(v.record()) }
+
+// VerifMessageSummaries is messageSummaries on an exported record.
+func VerifMessageSummaries(v VerifRecord) [][]byte { return messageSummaries(v.record()) }
